@@ -116,6 +116,7 @@ fn first_schema_diff(a: &DataType, b: &DataType) -> String {
 
 fn check(ctx: &Ctx, m: &ModelGame, label: &str, counting: bool) -> Result<(), Fail> {
 	let bytes = m.encode();
+	super::sibling_history(m, &bytes);
 	let v = m.v();
 	if counting {
 		ctx.eval();
